@@ -111,7 +111,7 @@ def known_findings():
 
 
 def found_dir(pid):
-    d = os.path.join(VERIF, "found", pid)
+    d = os.path.join(os.environ.get("VERIF_FOUND_DIR") or os.path.join(VERIF, "found"), pid)
     os.makedirs(d, exist_ok=True)
     return d
 
@@ -182,6 +182,8 @@ def run_check(pid, cfg, tier_name, seed, tmp):
     # ---- replay tier: curated regression inputs and known-finding witnesses
     rdir = os.path.join(VERIF, "replays", pid)
     replay_files = sorted(os.path.join(rdir, f) for f in os.listdir(rdir)) if os.path.isdir(rdir) else []
+    if os.environ.get("VERIF_SKIP_REPLAYS"):
+        replay_files = []  # sensitivity self-test: the verdict must come from the generated tier
     witness = {}
     for f in known_findings():
         if f.get("property") == pid and f.get("witness"):
@@ -411,8 +413,9 @@ def run_check(pid, cfg, tier_name, seed, tmp):
     }
     if cfg.get("exhaustive_note"):
         ev["coverage"]["exhaustive_note"] = cfg["exhaustive_note"]
-    os.makedirs(os.path.join(VERIF, "evidence"), exist_ok=True)
-    with open(os.path.join(VERIF, "evidence", pid + ".json"), "w") as f:
+    evdir = os.environ.get("VERIF_EVIDENCE_DIR") or os.path.join(VERIF, "evidence")
+    os.makedirs(evdir, exist_ok=True)
+    with open(os.path.join(evdir, pid + ".json"), "w") as f:
         json.dump(ev, f, indent=1, sort_keys=True)
         f.write("\n")
 
